@@ -68,10 +68,10 @@ Proof.
     assert (T : forall f0 p0 cl0, snd (digits buf L pos fill f0 p0 cl0 true) = true).
     { induction f0; intros; simpl; auto. destruct (gb buf L pos p0); simpl; auto.
       destruct (z =? 13); simpl; auto. destruct (negb (is_digit z)); simpl; auto.
-      destruct (_ || _); simpl; auto. destruct (fill <? p0 + 1); simpl; auto. }
+      destruct (_ || _); simpl; auto. destruct (fill <=? p0 + 1); simpl; auto. }
     destruct (gb buf L pos p) as [c|]; [|inversion E].
     destruct (c =? 13); [inversion E|]. destruct (negb (is_digit c)); [inversion E|].
-    destruct (_ || _); [inversion E|]. destruct (fill <? p + 1); [inversion E|].
+    destruct (_ || _); [inversion E|]. destruct (fill <=? p + 1); [inversion E|].
     pose proof (T f (p + 1) (cl * 10 + (c - 48))) as T'. rewrite E in T'. discriminate T'. }
   destruct fuel' as [|f']; [lia|]. simpl.
   destruct (Z.leb_spec fill' p); [lia|]. simpl. rewrite <- VIEW by lia.
@@ -79,8 +79,8 @@ Proof.
   destruct (c =? 13); [inversion E; subst; reflexivity|].
   destruct (negb (is_digit c)); [inversion E; subst; reflexivity|].
   destruct ((MAXSIZE / 10 <? cl) || (MAXSIZE - (c - 48) <? cl * 10)); [inversion E; subst; reflexivity|].
-  destruct (Z.ltb_spec fill (p + 1)); [inversion E; subst; exact I|].
-  destruct (Z.ltb_spec fill' (p + 1)); [lia|].
+  destruct (Z.leb_spec fill (p + 1)); [inversion E; subst; exact I|].
+  destruct (Z.leb_spec fill' (p + 1)); [lia|].
   apply (IH f' (p + 1)); auto; lia.
 Qed.
 
@@ -271,47 +271,6 @@ End Ext.
 (** * Stage B: the ring buffer as a list.  [ring_u buf pos fill] is the logical content of the ring. *)
 Definition ring_u (buf : list Z) (pos fill : Z) : list Z := takeZ fill (dropZ pos buf ++ buf).
 
-Lemma mread_app_l a b i : 0 <= i < lenZ a -> mread (a ++ b) i = mread a i.
-Proof.
-  intros. unfold mread. destruct (Z.leb_spec 0 i); [|lia]. rewrite dropZ_app_l by lia.
-  destruct (dropZ i a) eqn:D; [|reflexivity].
-  pose proof (lenZ_dropZ i a). rewrite D, lenZ_nil0 in H1. lia.
-Qed.
-Lemma mread_app_r a b i : lenZ a <= i -> mread (a ++ b) i = mread b (i - lenZ a).
-Proof.
-  intros. pose proof (lenZ_nonneg a). unfold mread.
-  destruct (Z.leb_spec 0 i); [|lia]. destruct (Z.leb_spec 0 (i - lenZ a)); [|lia].
-  rewrite dropZ_app_r by lia. reflexivity.
-Qed.
-Lemma mread_dropZ k m i : 0 <= k -> 0 <= i -> mread (dropZ k m) i = mread m (k + i).
-Proof.
-  intros. unfold mread. destruct (Z.leb_spec 0 i); [|lia]. destruct (Z.leb_spec 0 (k + i)); [|lia].
-  rewrite dropZ_dropZ by lia. reflexivity.
-Qed.
-Lemma takeZ_cons n x t : 0 < n -> takeZ n (x :: t) = x :: takeZ (n - 1) t.
-Proof. intros. simpl. destruct (Z.leb_spec n 0); [lia | reflexivity]. Qed.
-Lemma dropZ_cons n x t : 0 < n -> dropZ n (x :: t) = dropZ (n - 1) t.
-Proof. intros. simpl. destruct (Z.leb_spec n 0); [lia | reflexivity]. Qed.
-Lemma takeZ_nil n : takeZ n [] = [].
-Proof. reflexivity. Qed.
-Lemma dropZ_nil n : dropZ n [] = [].
-Proof. reflexivity. Qed.
-Lemma dropZ_takeZ i n m : 0 <= i -> dropZ i (takeZ n m) = takeZ (n - i) (dropZ i m).
-Proof.
-  revert i n. induction m as [|x t IH]; intros i n I.
-  - reflexivity.
-  - destruct (Z.leb_spec n 0).
-    + rewrite (takeZ_nonpos n) by lia. rewrite dropZ_nil. rewrite takeZ_nonpos by lia. reflexivity.
-    + rewrite takeZ_cons by lia. destruct (Z.leb_spec i 0).
-      * rewrite !dropZ_nonpos by lia. replace (n - i) with n by lia. rewrite takeZ_cons by lia. reflexivity.
-      * rewrite !dropZ_cons by lia. rewrite IH by lia. f_equal. lia.
-Qed.
-Lemma mread_takeZ n m i : 0 <= i < n -> mread (takeZ n m) i = mread m i.
-Proof.
-  intros. unfold mread. destruct (Z.leb_spec 0 i); [|lia]. rewrite dropZ_takeZ by lia.
-  destruct (dropZ i m) as [|x t]; [reflexivity|]. rewrite takeZ_cons by lia. reflexivity.
-Qed.
-
 Lemma lenZ_ring_u buf pos fill : 0 <= pos -> pos <= lenZ buf -> 0 <= fill <= lenZ buf -> lenZ (ring_u buf pos fill) = fill.
 Proof.
   intros. unfold ring_u. rewrite lenZ_takeZ, lenZ_app, lenZ_dropZ. lia.
@@ -347,33 +306,6 @@ Proof.
     rewrite E. rewrite (dropZ_app_r n) by lia. rewrite LD.
     replace (n - (L - pos)) with (pos + n - L) by lia.
     rewrite takeZ_app_l; [reflexivity|]. rewrite lenZ_dropZ. lia.
-Qed.
-
-Lemma list_ext_mread (a b : list Z) : lenZ a = lenZ b -> (forall i, 0 <= i < lenZ a -> mread a i = mread b i) -> a = b.
-Proof.
-  revert b. induction a as [|x t IH]; intros b Lab H.
-  - symmetry. apply lenZ_nil. rewrite <- Lab. reflexivity.
-  - destruct b as [|y u]; [rewrite lenZ_cons, lenZ_nil0 in Lab; pose proof (lenZ_nonneg t); lia|].
-    rewrite !lenZ_cons in Lab. pose proof (lenZ_nonneg t).
-    assert (Hz := H 0 ltac:(rewrite lenZ_cons; lia)). unfold mread in Hz. simpl in Hz. inversion Hz; subst y. f_equal.
-    apply IH; [lia|]. intros i Hi.
-    assert (Hs := H (i + 1) ltac:(rewrite lenZ_cons; lia)).
-    unfold mread in *. destruct (Z.leb_spec 0 (i + 1)); [|lia]. destruct (Z.leb_spec 0 i); [|lia].
-    rewrite !dropZ_cons in Hs by lia. replace (i + 1 - 1) with i in Hs by lia. exact Hs.
-Qed.
-
-(** reading back what [mwrite] wrote *)
-Lemma mread_mwrite m off d m' j : mwrite m off d = Some m' -> 0 <= j < lenZ m ->
-  mread m' j = if (off <=? j) && (j <? off + lenZ d) then mread d (j - off) else mread m j.
-Proof.
-  intros W J. destruct (mwrite_inv _ _ _ _ W) as [O B]. rewrite mwrite_some in W by lia. inversion W; subst m'. clear W.
-  pose proof (lenZ_nonneg d). assert (LT : lenZ (takeZ off m) = off) by (rewrite lenZ_takeZ; lia).
-  destruct (Z.leb_spec off j); simpl.
-  - rewrite mread_app_r by lia. rewrite LT.
-    destruct (Z.ltb_spec j (off + lenZ d)).
-    + apply mread_app_l. lia.
-    + rewrite mread_app_r by lia. rewrite mread_dropZ by lia. f_equal. lia.
-  - rewrite mread_app_l by lia. apply mread_takeZ. lia.
 Qed.
 
 (** appending the bytes of a read to the ring (the two-vector write of socket_recv_messages) *)
@@ -445,13 +377,31 @@ Proof.
         rewrite mread_dropZ by (unfold size0 in *; lia). f_equal. unfold size0. lia.
 Qed.
 
-(** growing an unwrapped ring keeps its content *)
-Lemma ring_grow buf pos fill junk : 0 <= pos -> 0 <= fill -> pos + fill <= lenZ buf ->
-  ring_u (buf ++ junk) pos fill = ring_u buf pos fill.
+(** growing keeps the content: the new block starts with the old content, linearised *)
+Lemma ring_u_zero buf fill : 0 <= fill <= lenZ buf -> ring_u buf 0 fill = takeZ fill buf.
 Proof.
-  intros. unfold ring_u. rewrite dropZ_app_l by lia.
-  assert (LD : lenZ (dropZ pos buf) = lenZ buf - pos) by (rewrite lenZ_dropZ; pose proof (lenZ_nonneg buf); lia).
-  rewrite <- !app_assoc. rewrite !(takeZ_app_l fill (dropZ pos buf)) by lia. reflexivity.
+  intros. unfold ring_u. rewrite dropZ_nonpos by lia. apply takeZ_app_l. lia.
+Qed.
+Lemma grow_content G s buf pos : hinv s -> http_grow G s = Some (buf, pos) -> ring_u buf pos (h_fill s) = ring_u (h_buf s) (h_pos s) (h_fill s).
+Proof.
+  intros (P & F & PL & C & CB). unfold http_grow. cbv zeta.
+  destruct (Z.eqb_spec (h_fill s) (lenZ (h_buf s))) as [GR|NG]; [|intros E; inversion E; reflexivity].
+  destruct (Z.ltb_spec 0 (h_fill s)).
+  2:{ intros E; inversion E; subst. assert (h_fill s = 0) by lia. unfold ring_u. rewrite H0. rewrite !takeZ_nonpos by lia. reflexivity. }
+  rewrite Z.min_r by lia.
+  unfold mreadn. rewrite !fits_spec.
+  destruct (Z.leb_spec 0 (h_pos s)); [|lia]. destruct (Z.leb_spec 0 (lenZ (h_buf s) - h_pos s)); [|lia].
+  destruct (Z.leb_spec (h_pos s + (lenZ (h_buf s) - h_pos s)) (lenZ (h_buf s))); [|lia].
+  destruct (Z.leb_spec 0 0); [|lia]. destruct (Z.leb_spec 0 (h_fill s - (lenZ (h_buf s) - h_pos s))); [|lia].
+  destruct (Z.leb_spec (0 + (h_fill s - (lenZ (h_buf s) - h_pos s))) (lenZ (h_buf s))); [|lia].
+  cbn [andb]. intros E; inversion E; subst buf pos. clear E.
+  assert (LD : lenZ (dropZ (h_pos s) (h_buf s)) = lenZ (h_buf s) - h_pos s) by (rewrite lenZ_dropZ; lia).
+  rewrite (takeZ_all (lenZ (h_buf s) - h_pos s)) by lia. rewrite (dropZ_nonpos 0) by lia.
+  set (d1 := dropZ (h_pos s) (h_buf s)) in *. set (d2 := takeZ (h_fill s - (lenZ (h_buf s) - h_pos s)) (h_buf s)).
+  assert (L2 : lenZ d2 = h_fill s - (lenZ (h_buf s) - h_pos s)) by (unfold d2; rewrite lenZ_takeZ; lia).
+  rewrite ring_u_zero by (rewrite !lenZ_app, lenZ_repZ; pose proof (lenZ_nonneg (repZ G 0)); lia).
+  rewrite app_assoc. rewrite takeZ_app_l by (rewrite lenZ_app; lia). rewrite takeZ_all by (rewrite lenZ_app; lia).
+  unfold ring_u. fold d1. rewrite takeZ_app_r by lia. rewrite LD. reflexivity.
 Qed.
 
 (** * Stage C: the retry loop of the parser on the logical content (a list), and its stability *)
@@ -803,15 +753,15 @@ Proof.
     assert (T : forall f0 p0 cl0, snd (digits buf L pos fill f0 p0 cl0 true) = true).
     { induction f0; intros; simpl; auto. destruct (gb buf L pos p0); simpl; auto.
       destruct (z =? 13); simpl; auto. destruct (negb (is_digit z)); simpl; auto.
-      destruct (_ || _); simpl; auto. destruct (fill <? p0 + 1); simpl; auto. }
+      destruct (_ || _); simpl; auto. destruct (fill <=? p0 + 1); simpl; auto. }
     destruct (gb buf L pos p) as [c|]; [|inversion E].
     destruct (c =? 13); [inversion E|]. destruct (negb (is_digit c)); [inversion E|].
-    destruct (_ || _); [inversion E|]. destruct (fill <? p + 1); [inversion E|].
+    destruct (_ || _); [inversion E|]. destruct (fill <=? p + 1); [inversion E|].
     pose proof (T f (p + 1) (cl * 10 + (c - 48))) as T'. rewrite E in T'. discriminate T'. }
   rewrite <- VIEW by lia. destruct (gb buf L pos p) as [c|]; auto.
   destruct (c =? 13); auto. destruct (negb (is_digit c)); auto.
   destruct ((MAXSIZE / 10 <? cl) || (MAXSIZE - (c - 48) <? cl * 10)); auto.
-  destruct (fill <? p + 1); auto. apply IH; auto; lia.
+  destruct (fill <=? p + 1); auto. apply IH; auto; lia.
 Qed.
 Lemma hdr_finish_same p cl st : 0 <= p ->
   hdr_finish buf L pos fill p cl st = hdr_finish buf' L' pos' fill p cl st.
@@ -870,30 +820,13 @@ Proof.
   rewrite gb_lring by lia. unfold Uof. apply gb_ring; auto; lia.
 Qed.
 
-(* programs without reads leave the kernel buffer alone *)
-Inductive readfree {S} : prog S -> Prop :=
-| rf_done s r : readfree (PDone s r)
-| rf_up d z p : readfree p -> readfree (PUp d z p)
-| rf_dn d p : readfree p -> readfree (PDn d p)
-| rf_mark n p : readfree p -> readfree (PMark n p)
-| rf_hdr n p : readfree p -> readfree (PHdr n p)
-| rf_fault : readfree PFault.
-Lemma readfree_exec {S} (p : prog S) : readfree p -> forall kb o k e, exec p kb = (o, k, e) -> k = kb.
-Proof.
-  induction 1; intros kb o k0 e0 E; simpl in E;
-    try (destruct (exec p kb) as [[o' k'] e'] eqn:E'; inversion E; subst; eauto; fail);
-    inversion E; auto.
-Qed.
-Lemma readfree_flush {S} q (p : prog S) : readfree p -> readfree (flush_queue q p).
-Proof. induction q; simpl; auto. intros. constructor. auto. Qed.
 Lemma readfree_handover s : readfree (http_handover s).
 Proof.
   unfold http_handover. cbv zeta.
-  assert (F : forall a b r z, readfree (flush_queue (h_queue s)
-     (if r =? 1 then PUp [] z (PDone {| h_state := HT_CONNECTED; h_base := h_base s; h_queue := []; h_buf := h_buf s; h_pos := a; h_fill := b; h_cl := h_cl s |} 1)
-      else PDone {| h_state := HT_CONNECTED; h_base := h_base s; h_queue := []; h_buf := h_buf s; h_pos := a; h_fill := b; h_cl := h_cl s |} 0))).
-  { intros. apply readfree_flush. destruct (r =? 1); repeat constructor. }
-  destruct (0 <? h_fill s); [|apply F]. constructor.
+  assert (F : forall a b data, readfree (mark_if (0 <? b) 3 (flush_queue (h_queue s)
+     (PUp data (-1) (PDone {| h_state := HT_CONNECTED; h_base := h_base s; h_queue := []; h_buf := h_buf s; h_pos := a; h_fill := b; h_cl := h_cl s |} 1))))).
+  { intros. unfold mark_if. destruct (0 <? b); [constructor|]; apply readfree_flush; repeat constructor. }
+  destruct (0 <? h_fill s); [|apply readfree_flush; constructor].
   destruct (_ <? _).
   - destruct (mreadn _ _ _); [|constructor]. destruct (mreadn _ _ _); [|constructor]. apply F.
   - destruct (mreadn _ _ _); [|constructor]. apply F.
@@ -922,10 +855,12 @@ Proof. induction q; simpl; auto. unfold vis in *. simpl. rewrite IHq. reflexivit
 Lemma exec_mark_unclean {S} n (p : prog S) kb o k e : exec (PMark n p) kb = (o, k, e) -> clean e = false.
 Proof. simpl. destruct (exec p kb) as [[o' k'] e']. intros E; inversion E; subst. reflexivity. Qed.
 
-(* the hand-over at the end of the handshake *)
+(* the hand-over at the end of the handshake: everything that is in the ring, as far as the caller's buffer
+   goes; what does not fit stays behind for good (tagged) *)
 Lemma handover_exec s kb o k e : hring s -> exec (http_handover s) kb = (o, k, e) ->
   exists s' ret, o = Some (s', ret) /\ 0 <= ret /\ h_state s' = HT_CONNECTED /\ h_base s' = true /\ hinv s' /\
-    (h_fill s = 0 -> vis vis_str e = map ODn (h_queue s)) /\ (0 < h_fill s -> clean e = false).
+    (h_fill s <= UPCAP -> vis vis_str e = map ODn (h_queue s) ++ map OByte (Uof s)) /\
+    (UPCAP < h_fill s -> clean e = false).
 Proof.
   intros R E. destruct (hring_facts s R) as (A & B & C & D & Bs & F).
   pose proof (handover_ok s R) as [SAFE LEAVES].
@@ -934,22 +869,65 @@ Proof.
   assert (P' : 0 <= ret /\ h_state s' = HT_CONNECTED /\ h_base s' = true).
   { revert E. apply (leaves_exec (fun s1 r => 0 <= r /\ h_state s1 = HT_CONNECTED /\ h_base s1 = true) (http_handover s)).
     unfold http_handover. cbv zeta.
-    assert (FIN : forall a b r z, leaves (fun s1 r0 => 0 <= r0 /\ h_state s1 = HT_CONNECTED /\ h_base s1 = true)
-      (flush_queue (h_queue s)
-        (if r =? 1 then PUp [] z (PDone {| h_state := HT_CONNECTED; h_base := h_base s; h_queue := []; h_buf := h_buf s; h_pos := a; h_fill := b; h_cl := h_cl s |} 1)
-         else PDone {| h_state := HT_CONNECTED; h_base := h_base s; h_queue := []; h_buf := h_buf s; h_pos := a; h_fill := b; h_cl := h_cl s |} 0))).
-    { intros. apply flush_queue_leaves. destruct (r =? 1); repeat (apply lv_up || apply lv_done); simpl; repeat split; auto; lia. }
-    destruct (0 <? h_fill s); [|apply FIN]. constructor.
+    assert (FIN : forall a b data, leaves (fun s1 r0 => 0 <= r0 /\ h_state s1 = HT_CONNECTED /\ h_base s1 = true)
+      (mark_if (0 <? b) 3 (flush_queue (h_queue s)
+        (PUp data (-1) (PDone {| h_state := HT_CONNECTED; h_base := h_base s; h_queue := []; h_buf := h_buf s; h_pos := a; h_fill := b; h_cl := h_cl s |} 1))))).
+    { intros. unfold mark_if. destruct (0 <? b); [constructor|]; apply flush_queue_leaves;
+        apply lv_up; apply lv_done; simpl; repeat split; auto; lia. }
+    destruct (0 <? h_fill s).
+    2:{ apply flush_queue_leaves. apply lv_done. simpl. repeat split; auto; lia. }
     destruct (_ <? _).
     - destruct (mreadn _ _ _); [|constructor]. destruct (mreadn _ _ _); [|constructor]. apply FIN.
     - destruct (mreadn _ _ _); [|constructor]. apply FIN. }
   destruct P' as (P1 & P2 & P3).
   assert (HI : hinv s') by exact (leaves_exec hP _ LEAVES _ _ _ _ _ E P1).
-  split; [exact P1|]. split; [exact P2|]. split; [exact P3|]. split; [exact HI|]. split.
-  - intros F0. unfold http_handover in E. cbv zeta in E. rewrite F0 in E. change (0 <? 0) with false in E. cbv iota in E.
-    rewrite exec_flush_queue in E. simpl in E. inversion E; subst. rewrite vis_app, vis_map_dn. simpl. rewrite app_nil_r. reflexivity.
-  - intros FP. unfold http_handover in E. cbv zeta in E. destruct (Z.ltb_spec 0 (h_fill s)); [|lia].
-    eapply exec_mark_unclean; eauto.
+  split; [exact P1|]. split; [exact P2|]. split; [exact P3|]. split; [exact HI|].
+  unfold http_handover in E. cbv zeta in E.
+  assert (VUP : forall data a b, b = 0 -> data = Uof s ->
+     exec (mark_if (0 <? b) 3 (flush_queue (h_queue s)
+        (PUp data (-1) (PDone {| h_state := HT_CONNECTED; h_base := h_base s; h_queue := []; h_buf := h_buf s; h_pos := a; h_fill := b; h_cl := h_cl s |} 1)))) kb
+       = (Some (s', ret), k, e) -> vis vis_str e = map ODn (h_queue s) ++ map OByte (Uof s)).
+  { intros data a b B0 DU EX. subst b data. change (0 <? 0) with false in EX. unfold mark_if in EX.
+    rewrite exec_flush_queue in EX. simpl in EX. inversion EX; subst. rewrite vis_app, vis_map_dn. simpl. rewrite !app_nil_r. reflexivity. }
+  assert (MK : forall data a b, 0 < b ->
+     exec (mark_if (0 <? b) 3 (flush_queue (h_queue s)
+        (PUp data (-1) (PDone {| h_state := HT_CONNECTED; h_base := h_base s; h_queue := []; h_buf := h_buf s; h_pos := a; h_fill := b; h_cl := h_cl s |} 1)))) kb
+       = (Some (s', ret), k, e) -> clean e = false).
+  { intros data a b BP EX. destruct (Z.ltb_spec 0 b); [|lia]. unfold mark_if in EX. eapply exec_mark_unclean; eauto. }
+  assert (LD : lenZ (dropZ (h_pos s) (h_buf s)) = lenZ (h_buf s) - h_pos s) by (rewrite lenZ_dropZ; lia).
+  unfold UPCAP in *.
+  destruct (Z.ltb_spec 0 (h_fill s)).
+  2:{ assert (F0 : h_fill s = 0) by lia. split; [|lia]. intros _.
+      rewrite exec_flush_queue in E. simpl in E. inversion E; subst. rewrite vis_app, vis_map_dn. simpl.
+      assert (U0 : Uof s = []) by (apply lenZ_nil; lia). rewrite U0. simpl. rewrite !app_nil_r. reflexivity. }
+  destruct (Z.ltb_spec (lenZ (h_buf s)) (h_pos s + h_fill s)).
+  - set (len1 := Z.min (lenZ (h_buf s) - h_pos s) 70000) in *.
+    destruct (mreadn (h_buf s) (h_pos s) len1) as [d1|] eqn:M1; [|simpl in E; inversion E].
+    set (len2 := Z.min (h_fill s - len1) (70000 - len1)) in *.
+    destruct (mreadn (h_buf s) 0 len2) as [d2|] eqn:M2; [|simpl in E; inversion E].
+    split.
+    + intros LE. eapply VUP; [| |exact E]; [unfold len1, len2; lia|].
+      assert (E1 : len1 = lenZ (h_buf s) - h_pos s) by (unfold len1; lia).
+      assert (E2 : len2 = h_fill s - (lenZ (h_buf s) - h_pos s)) by (unfold len2; lia).
+      unfold mreadn in M1, M2. rewrite fits_spec in M1, M2.
+      destruct (Z.leb_spec 0 (h_pos s)); [|lia]. destruct (Z.leb_spec 0 len1); [|lia].
+      destruct (Z.leb_spec (h_pos s + len1) (lenZ (h_buf s))); [|lia].
+      destruct (Z.leb_spec 0 0); [|lia]. destruct (Z.leb_spec 0 len2); [|lia].
+      destruct (Z.leb_spec (0 + len2) (lenZ (h_buf s))); [|lia]. cbn [andb] in M1, M2.
+      inversion M1; inversion M2; subst d1 d2.
+      rewrite (dropZ_nonpos 0) by lia. rewrite E1. rewrite takeZ_all by lia.
+      unfold Uof, ring_u. rewrite takeZ_app_r by lia. rewrite LD, E2. reflexivity.
+    + intros GT. eapply MK; [|exact E]. unfold len1, len2. lia.
+  - set (len := Z.min (h_fill s) 70000) in *.
+    destruct (mreadn (h_buf s) (h_pos s) len) as [d1|] eqn:M1; [|simpl in E; inversion E].
+    split.
+    + intros LE. eapply VUP; [| |exact E]; [unfold len; lia|].
+      assert (E1 : len = h_fill s) by (unfold len; lia).
+      unfold mreadn in M1. rewrite fits_spec in M1.
+      destruct (Z.leb_spec 0 (h_pos s)); [|lia]. destruct (Z.leb_spec 0 len); [|lia].
+      destruct (Z.leb_spec (h_pos s + len) (lenZ (h_buf s))); [|lia]. cbn [andb] in M1. inversion M1; subst d1.
+      unfold Uof, ring_u. rewrite E1. rewrite takeZ_app_l by lia. reflexivity.
+    + intros GT. eapply MK; [|exact E]. unfold len. lia.
 Qed.
 
 Lemma Uof_step s st n cl' : hring s -> 0 <= n <= h_fill s ->
@@ -970,8 +948,8 @@ Lemma parse_conc : forall fuel s kb o k e, hring s -> suff fuel (h_state s) (Uof
     | ANeed st' cl' U' => exists s', o = Some (s', 0) /\ hring s' /\ h_state s' = st' /\ h_cl s' = cl' /\ Uof s' = U' /\
                                       h_queue s' = h_queue s /\ h_buf s' = h_buf s /\ vis vis_str e = []
     | AErr => exists s', o = Some (s', -1) /\ vis vis_str e = []
-    | AConn c rest => rest = [] /\ exists s' ret, o = Some (s', ret) /\ 0 <= ret /\ h_state s' = HT_CONNECTED /\
-                                      h_base s' = true /\ hinv s' /\ vis vis_str e = map ODn (h_queue s)
+    | AConn c rest => exists s' ret, o = Some (s', ret) /\ 0 <= ret /\ h_state s' = HT_CONNECTED /\
+                                      h_base s' = true /\ hinv s' /\ vis vis_str e = map ODn (h_queue s) ++ map OByte rest
     | AFuel => False
     end.
 Proof.
@@ -1008,8 +986,8 @@ Proof.
     change (HT_HEADERS =? HT_INIT) with false in E. change (HT_HEADERS =? HT_HEADERS) with true in E. cbv iota in E.
     rewrite aparse_S_headers. unfold l_header. rewrite F.
     destruct (parse_header (h_buf s) (lenZ (h_buf s)) (h_pos s) (h_fill s) (h_cl s)) as [[pr cl'] stale] eqn:PH.
-    destruct stale.
-    { exfalso. unfold mark_if in E. rewrite (exec_mark_unclean _ _ _ _ _ _ E) in CL. discriminate. }
+    pose proof (parse_header_nostale (h_buf s) (lenZ (h_buf s)) (h_pos s) (h_fill s) A eq_refl (h_cl s)) as NS.
+    rewrite PH in NS. simpl in NS. subst stale.
     unfold mark_if in E.
     assert (PH' := parse_header_same (h_buf s) (lenZ (h_buf s)) (h_pos s) (Uof s ++ [0]) (h_fill s + 1) 0 (h_fill s)
                      A eq_refl VW _ _ _ PH).
@@ -1066,9 +1044,9 @@ Proof.
   destruct (Z.eqb_spec (h_state s) HT_CONNECTED) as [S3|S3].
   - destruct (handover_exec s kb o k e R E) as (s' & ret & O & R0 & ST & BS & HI & V0 & VC).
     eexists. split; [reflexivity|].
-    assert (F0 : h_fill s = 0).
-    { destruct (Z.eq_dec (h_fill s) 0); auto. rewrite VC in CL by lia. discriminate. }
-    split; [apply lenZ_nil; lia|]. exists s', ret. split; [exact O|]. split; [exact R0|]. split; [exact ST|]. split; [exact BS|]. split; [exact HI|]. apply V0. exact F0.
+    assert (F0 : h_fill s <= UPCAP).
+    { destruct (Z.le_gt_cases (h_fill s) UPCAP); auto. rewrite VC in CL by lia. discriminate. }
+    exists s', ret. split; [exact O|]. split; [exact R0|]. split; [exact ST|]. split; [exact BS|]. split; [exact HI|]. apply V0. exact F0.
   - unfold http_error in E. rewrite exec_done in E. inversion E; subst. eexists. split; [reflexivity|]. eexists. split; reflexivity.
 Qed.
 
@@ -1105,8 +1083,8 @@ Lemma call_conc G s kb o k e : hs_inv s -> kb <> [] ->
     | ANeed st' cl' U' => exists s', o = Some (s', 0) /\ hs_inv s' /\ h_state s' = st' /\ h_cl s' = cl' /\ Uof s' = U' /\
                                       h_queue s' = h_queue s /\ vis vis_str e = []
     | AErr => exists s', o = Some (s', -1) /\ vis vis_str e = []
-    | AConn c rest => rest = [] /\ exists s' ret, o = Some (s', ret) /\ 0 <= ret /\ h_state s' = HT_CONNECTED /\
-                                      h_base s' = true /\ hinv s' /\ vis vis_str e = map ODn (h_queue s)
+    | AConn c rest => exists s' ret, o = Some (s', ret) /\ 0 <= ret /\ h_state s' = HT_CONNECTED /\
+                                      h_base s' = true /\ hinv s' /\ vis vis_str e = map ODn (h_queue s) ++ map OByte rest
     | AFuel => False
     end.
 Proof.
@@ -1115,31 +1093,19 @@ Proof.
   unfold http_body in E.
   destruct (Z.eqb_spec (h_state s) HT_CONNECTED) as [SC|SC].
   { exfalso. destruct ST as [X|[X|X]]; rewrite X in SC; discriminate. }
-  cbv zeta in E. rewrite Bs in E.
-  set (L0 := lenZ (h_buf s)) in *.
-  set (grown := h_fill s =? L0) in *.
-  set (L := if grown then Z.max (L0 * 2) 1024 else L0) in *.
-  set (buf := if grown then h_buf s ++ repZ G (Z.to_nat (L - L0)) else h_buf s) in *.
-  assert (LL : L0 <= L /\ 0 < L /\ h_fill s < L) by (unfold L, grown; destruct (Z.eqb_spec (h_fill s) L0); lia).
-  assert (LB : lenZ buf = L).
-  { unfold buf, grown, L. destruct (Z.eqb_spec (h_fill s) L0); auto. rewrite lenZ_app, lenZ_repZ. fold L0. lia. }
-  (* growing while wrapped is tagged *)
-  destruct (grown && (L0 <? h_pos s + h_fill s)) eqn:GW.
-  { exfalso. unfold mark_if in E. rewrite (exec_mark_unclean _ _ _ _ _ _ E) in CL. discriminate. }
-  unfold mark_if in E.
-  assert (RV : ring_valid L (h_pos s) (h_fill s) = true) by (apply ring_valid_spec; lia).
+  destruct (grow_ok G s HI) as (buf & pos & GR & LL1 & LL2 & LL3 & LL4).
+  pose proof (grow_content G s buf pos HI GR) as U0. fold (Uof s) in U0.
+  rewrite GR in E. cbv zeta in E. rewrite Bs in E.
+  set (L := lenZ buf) in *.
+  assert (RV : ring_valid L pos (h_fill s) = true) by (apply ring_valid_spec; lia).
   rewrite RV in E. change (negb true) with false in E. cbv iota in E.
-  assert (PL' : h_pos s < L) by lia.
-  (* the content is unchanged by the (unwrapped) growth *)
-  assert (U0 : ring_u buf (h_pos s) (h_fill s) = Uof s).
-  { unfold buf, Uof. destruct grown eqn:GR; auto. simpl in GW. apply Z.ltb_ge in GW. apply ring_grow; lia. }
-  set (wrapped := L <? h_pos s + h_fill s) in *.
-  set (off0 := if wrapped then (h_pos s + h_fill s) mod L else h_pos s + h_fill s) in *.
-  set (size0 := if wrapped then L - h_fill s else L - (h_pos s + h_fill s)) in *.
-  set (size1 := if wrapped then 0 else h_pos s) in *.
+  set (wrapped := L <? pos + h_fill s) in *.
+  set (off0 := if wrapped then (pos + h_fill s) mod L else pos + h_fill s) in *.
+  set (size0 := if wrapped then L - h_fill s else L - (pos + h_fill s)) in *.
+  set (size1 := if wrapped then 0 else pos) in *.
   assert (GEO : 0 <= off0 /\ 0 <= size0 /\ off0 + size0 <= L /\ 0 <= size1 <= L /\ size0 + size1 = L - h_fill s).
-  { unfold off0, size0, size1, wrapped. destruct (Z.ltb_spec L (h_pos s + h_fill s)).
-    - assert (E0 : (h_pos s + h_fill s) mod L = h_pos s + h_fill s - L) by (symmetry; apply Z.mod_unique with 1; lia).
+  { unfold off0, size0, size1, wrapped. destruct (Z.ltb_spec L (pos + h_fill s)).
+    - assert (E0 : (pos + h_fill s) mod L = pos + h_fill s - L) by (symmetry; apply Z.mod_unique with 1; lia).
       rewrite E0. lia.
     - lia. }
   rewrite exec_read in E.
@@ -1151,20 +1117,20 @@ Proof.
   assert (T1 : lenZ (dropZ size0 d) <= size1) by (rewrite lenZ_dropZ; lia).
   pose proof (lenZ_nonneg (takeZ size0 d)). pose proof (lenZ_nonneg (dropZ size0 d)).
   destruct (mwrite buf off0 (takeZ size0 d)) as [b1|] eqn:W1.
-  2:{ rewrite mwrite_some in W1 by lia. discriminate. }
-  assert (L1 : lenZ b1 = L) by (rewrite (mwrite_len _ _ _ _ W1); exact LB).
+  2:{ rewrite mwrite_some in W1 by (fold L; lia). discriminate. }
+  assert (L1 : lenZ b1 = L) by (rewrite (mwrite_len _ _ _ _ W1); reflexivity).
   destruct (mwrite b1 0 (dropZ size0 d)) as [b2|] eqn:W2.
   2:{ rewrite mwrite_some in W2 by lia. discriminate. }
   assert (L2 : lenZ b2 = L) by (rewrite (mwrite_len _ _ _ _ W2); exact L1).
-  assert (RV' : ring_valid L (h_pos s) (h_fill s + lenZ d) = true) by (apply ring_valid_spec; lia).
+  assert (RV' : ring_valid L pos (h_fill s + lenZ d) = true) by (apply ring_valid_spec; lia).
   rewrite RV' in E. change (negb true) with false in E. cbv iota in E.
   set (s2 := {| h_state := h_state s; h_base := true; h_queue := h_queue s; h_buf := b2;
-                h_pos := h_pos s; h_fill := h_fill s + lenZ d; h_cl := h_cl s |}) in *.
+                h_pos := pos; h_fill := h_fill s + lenZ d; h_cl := h_cl s |}) in *.
   assert (R2 : hring s2).
   { unfold hring, hinv, s2; simpl. rewrite L2. repeat split; try lia; auto. }
   assert (U2 : Uof s2 = Uof s ++ d).
   { unfold Uof at 1. unfold s2; simpl. rewrite <- U0.
-    apply (ring_write buf L (h_pos s) (h_fill s) d b1 b2 LB ltac:(lia) ltac:(lia) ltac:(lia) W1 W2). }
+    apply (ring_write buf L pos (h_fill s) d b1 b2 eq_refl ltac:(lia) ltac:(lia) ltac:(lia) W1 W2). }
   set (fuel := Datatypes.S (Datatypes.S (Datatypes.S (Datatypes.S (Datatypes.S (Z.to_nat (h_fill s + lenZ d))))))) in *.
   destruct (exec (http_parse fuel s2) rest) as [[o' k'] e'] eqn:EP.
   inversion E; subst o' k' e. clear E.
@@ -1177,10 +1143,10 @@ Proof.
   split; [intros X; rewrite X, lenZ_nil0 in Ld; lia|].
   exists fuel, r. rewrite <- U2. split; [exact SF|]. split; [exact AP|].
   destruct r as [st' cl' U'| |c rs|]; auto.
-  - destruct M as (s' & O & R' & S1 & S2 & S3 & S4 & S5 & S6). exists s'.
-    split; [exact O|]. split.
-    { split; [exact (proj1 R')|]. split; [exact (proj2 (proj2 (proj2 R')))|]. rewrite S1. eapply aparse_need_state; eauto. }
-    repeat (split; auto).
+  destruct M as (s' & O & R' & S1 & S2 & S3 & S4 & S5 & S6). exists s'.
+  split; [exact O|]. split.
+  { split; [exact (proj1 R')|]. split; [exact (proj2 (proj2 (proj2 R')))|]. rewrite S1. eapply aparse_need_state; eauto. }
+  repeat (split; auto).
 Qed.
 
 Lemma aeq_sym st c1 c2 U : aeq st c1 c2 U -> aeq st c2 c1 U.
@@ -1294,8 +1260,8 @@ Proof.
     rewrite KB, app_assoc.
     pose proof (aparse_stable F1 _ _ _ _ HSc AP1 ltac:(discriminate) k F SF) as ST. simpl in ST.
     rewrite ST. eexists. split; [reflexivity|]. simpl. auto.
-  - (* connected, nothing left over in the ring: the rest of the chunk is tunnelled *)
-    destruct M as (RS & s' & ret & O & R0 & SC & BS & HI & V1). subst o rs.
+  - (* connected; what followed the reply in this read was handed over, the rest of the chunk is tunnelled *)
+    destruct M as (s' & ret & O & R0 & SC & BS & HI & V1). subst o.
     destruct (Z.ltb_spec ret 0); [lia|]. rewrite NP in D.
     destruct (drain (http_body G) fu s' k) as [w' e2] eqn:D2. inversion D; subst w' e. clear D.
     destruct (http_connected_transparent G s' SC BS fu k w e2 ltac:(lia) D2) as [-> V2].
@@ -1303,7 +1269,7 @@ Proof.
     pose proof (aparse_stable F1 _ _ _ _ HSc AP1 ltac:(discriminate) k F SF) as ST. simpl in ST.
     rewrite ST. eexists. split; [reflexivity|]. simpl.
     refine (conj eq_refl (conj SC (conj BS (conj HI _)))).
-    rewrite vis_app, V1, V2. reflexivity.
+    rewrite vis_app, V1, V2, map_app, app_assoc. reflexivity.
 Qed.
 
 (** * the specification: what a stream means, independent of any chunking *)
